@@ -48,6 +48,7 @@ extern struct espconn *sdk_last_conn; /* last conn passed to *_connect       */
 extern struct espconn *sdk_listen_conn;
 extern int sdk_sent_requires_open;
 extern int sdk_disc_pending;
+extern int sdk_read_cost_us;
 extern void (*sdk_upgflag_hook)(int flag);
 extern int sdk_conn_open;              /* a connect was requested and not yet disconnected */
 extern int sdk_disconnect_calls_cb;   /* espconn_disconnect invokes discon cb */
